@@ -17,18 +17,25 @@ def datatype_for(subst):
         return {"kind": "aa"}
     if k == "MG94":
         return {"kind": "codon", "code": subst["code"]}
-    return {"kind": "general", "k": gm.n_states(subst)}
+    # (general data types with an even number of states write their states with two characters: "aA", "bB", ...)
+    return {"kind": "general", "k": gm.n_states(subst), "width": 2 if gm.n_states(subst) % 2 == 0 else 1}
+
+
+def codes_of(dt):
+    codes = gm.general_codes(dt["k"])
+    return [c + c.upper() for c in codes] if dt.get("width", 1) == 2 else codes
 
 
 def add_general_ambiguities(rng, dt):
     k = dt["k"]
-    codes = gm.general_codes(k)
+    codes = codes_of(dt)
+    w = dt.get("width", 1)
     amb = {}
     if k >= 3 and rng.random() < 0.7:
         m = int(rng.integers(2, k))
-        amb["X"] = [codes[i] for i in sorted(rng.choice(k, size=m, replace=False).tolist())]
+        amb["X" * w] = [codes[i] for i in sorted(rng.choice(k, size=m, replace=False).tolist())]
     if rng.random() < 0.5:
-        amb["Y"] = codes[int(rng.integers(k))]  # alias, given as a string as the class documents ({'U': 'T'})
+        amb["Y" * w] = codes[int(rng.integers(k))]  # alias, given as a string as the class documents ({'U': 'T'})
     dt["amb"] = amb
     return dt
 
@@ -47,8 +54,8 @@ def random_alignment(rng, names, dt, ncols, amb_rate=0.15, dup_rate=0.3):
         # a stop codon is not a state of the model: it can only count as missing data (or be refused), never as another codon
         plain, special = sense, ["---", "???", "A-C", "NNN", "ACN", "RAT"] + stops[:2]
     else:
-        plain = gm.general_codes(dt["k"])
-        special = list(dt.get("amb", {}).keys()) + ["?", "-"]
+        plain = codes_of(dt)
+        special = list(dt.get("amb", {}).keys()) + ["?" * dt.get("width", 1), "-" * dt.get("width", 1)]
     while len(cols) < ncols:
         if cols and rng.random() < dup_rate:
             cols.append(list(cols[int(rng.integers(len(cols)))]))
@@ -76,7 +83,7 @@ def datatype_json(dt, id_="dt"):
         return {"id": id_, "type": "AminoAcidDataType"}
     if k == "codon":
         return {"id": id_, "type": "CodonDataType", "genetic_code": dt["code"]}
-    d = {"id": id_, "type": "GeneralDataType", "codes": gm.general_codes(dt["k"])}
+    d = {"id": id_, "type": "GeneralDataType", "codes": codes_of(dt)}
     if dt.get("amb"):
         d["ambiguities"] = dt["amb"]
     return d
@@ -94,7 +101,7 @@ def tip_vector(dt, sym, use_amb, tip_states):
         return ctmc.aa_partial(sym, amb)
     if k == "codon":
         return ctmc.codon_partial(sym, ctmc.genetic_code(dt["code"])[0])
-    codes = gm.general_codes(dt["k"])
+    codes = codes_of(dt)
     if sym in codes:
         v = [0.0] * len(codes)
         v[codes.index(sym)] = 1.0
@@ -127,7 +134,7 @@ def selected(seq, indices):
 
 def ref_tips(case):
     dt = case["datatype"]
-    size = 3 if dt["kind"] == "codon" else 1
+    size = 3 if dt["kind"] == "codon" else dt.get("width", 1)
     names = case["names"]
     tips = []
     for nm in names:
@@ -321,7 +328,7 @@ def as_attribute_case(case):
     import copy
 
     c = copy.deepcopy(case)
-    c["seqs"] = {nm: sq[:1] for nm, sq in case["seqs"].items()}
+    c["seqs"] = {nm: sq[:case["datatype"].get("width", 1)] for nm, sq in case["seqs"].items()}
     c["attribute_pattern"] = True
     c.pop("indices", None)
     c.pop("aln_file", None)
@@ -419,7 +426,7 @@ def random_case(rng, topo, subst_kind=None, site_kind=None, tree_kind=None, ncol
     case["use_tip_states"] = mode == 1
     if rng.random() < 0.2:
         case["rescale"] = True
-    if dt["kind"] != "codon" and ncols >= 3 and rng.random() < 0.25:
+    if dt["kind"] != "codon" and dt.get("width", 1) == 1 and ncols >= 3 and rng.random() < 0.25:
         # a site pattern over a subset of the columns (what partitioned analyses use), written as the `indices` key
         opts = ["::2", "1::2", "::3", "1::3,2::3", "%d:" % int(rng.integers(1, ncols)), ":%d" % int(rng.integers(1, ncols)), "-1,0", "0,::2", "%d,%d" % (int(rng.integers(ncols)), int(rng.integers(ncols)))]
         case["indices"] = opts[int(rng.integers(len(opts)))]
